@@ -274,6 +274,8 @@ def op_apply(x, opname, axis, out_n, op_batch=(), params=(), dtype=None):
         for i, p in enumerate(plist):
             if not p.requires_grad:
                 gps.append(None)
+            elif kind == "sc":
+                gps.append(None)   # x is the zero vector: the pull-back functional (bilinear in g and x) is zero
             elif kind != "vec" or g.kind != "vec":
                 raise OutOfSubset("parameter pull-back through an opaque operand")
             else:
